@@ -260,6 +260,95 @@ theorem C04_password_consulted (hmac : Nat → Bytes → Bytes) (e : Env) (scrip
             · simp at h
     · simp [h0] at h
 
+/-! ### exactly once -/
+
+theorem bootstrapFrom_ready_once (cs : List Cmd) (script : List Resp) (h : cs.length ≤ script.length) :
+    (readies (bootstrapFrom cs script)).length = 1 := by
+  induction cs generalizing script with
+  | nil => simp [bootstrapFrom, readies]
+  | cons c rest ih =>
+    cases script with
+    | nil => simp at h
+    | cons r sr =>
+      have h' : rest.length ≤ sr.length := by simpa using h
+      simp only [bootstrapFrom, readies]
+      split
+      · exact ih sr h'
+      · split
+        · exact ih sr h'
+        · simp [readies]
+
+theorem afterAuthenticate_ready_once (script : List Resp) (h : 5 ≤ script.length) :
+    (readies (afterAuthenticate script)).length = 1 := by
+  cases script with
+  | nil => simp at h
+  | cons r rest =>
+    simp only [afterAuthenticate]
+    split
+    · exact bootstrapFrom_ready_once bootstrapCmds rest (by simp [bootstrapCmds] at h ⊢; omega)
+    · simp [readies]
+
+/-- **The ready notification fires exactly once** whenever the server answers (or hangs up on) everything it is asked:
+seven answers are the most an exchange can need (PROTOCOLINFO, AUTHCHALLENGE, AUTHENTICATE, four bootstrap queries). -/
+theorem C04_ready_exactly_once (hmac : Nat → Bytes → Bytes) (e : Env) (script : List Resp) (h : 7 ≤ script.length) :
+    (readies (run hmac e script)).length = 1 := by
+  unfold run
+  cases script with
+  | nil => simp at h
+  | cons r0 rest =>
+    have hr : 6 ≤ rest.length := by simpa using h
+    simp only [readies]
+    split
+    · simp [readies]
+    · cases hd : choose e with
+      | fail => simp [readies]
+      | null => simp only [readies]; exact afterAuthenticate_ready_once rest (by omega)
+      | cookie c => simp only [readies]; exact afterAuthenticate_ready_once rest (by omega)
+      | password =>
+        simp only [readies]
+        cases e.pw with
+        | value p => simp only [readies]; exact afterAuthenticate_ready_once rest (by omega)
+        | absent => simp [readies]
+        | empty => simp [readies]
+        | raises => simp [readies]
+      | safecookie c =>
+        simp only [readies]
+        cases rest with
+        | nil => simp at hr
+        | cons r1 rest' =>
+          have hr' : 5 ≤ rest'.length := by simpa using hr
+          cases r1 with
+          | chal hh nn =>
+            simp only
+            split
+            · simp only [readies]; exact afterAuthenticate_ready_once rest' hr'
+            · simp [readies]
+          | ok => simp [readies]
+          | err => simp [readies]
+          | disconnect => simp [readies]
+          | chalMalformed => simp [readies]
+
+/-- **Success only after authentication was accepted**: if the ready notification reports success, an `AUTHENTICATE` was
+written and all four bootstrap queries after it. -/
+theorem C04_success_after_accept (hmac : Nat → Bytes → Bytes) (e : Env) (script : List Resp)
+    (h : readies (run hmac e script) = [true]) :
+    ∃ pre a, cmds (run hmac e script) = pre ++ [.authenticate a] ++ bootstrapCmds ∧ ∀ c ∈ pre, isBootstrapCmd c = false := by
+  obtain ⟨chal, auth, n, hc, hchal, hauth, hn, hr⟩ := C04_order hmac e script
+  rcases hr with hr | hr | ⟨_, hn4⟩
+  · rw [hr] at h; simp at h
+  · rw [hr] at h; simp at h
+  · have hne := hn (by omega)
+    rcases hauth with ha | ⟨a, ha⟩
+    · exact absurd ha hne
+    · refine ⟨.protocolinfo :: chal, a, ?_, ?_⟩
+      · rw [hc, ha, hn4]; simp [bootstrapCmds]
+      · intro c hcm
+        rcases List.mem_cons.mp hcm with rfl | hcm
+        · rfl
+        · rcases hchal with hch | hch
+          · rw [hch] at hcm; simp at hcm
+          · rw [hch] at hcm; simp at hcm; subst hcm; rfl
+
 /-! ### non-vacuity -/
 def demoHmac : Nat → Bytes → Bytes := fun k m => k :: m
 
